@@ -14,8 +14,11 @@ import (
 	"github.com/lianxiangcloud/linkchain/types"
 )
 
-func init() {
-	kernel.Register(&kernel.Rig{
+// Describe returns the VoteSet/VerifyCommit-level rig. It does not register
+// itself: the check binary (or the composite rigs/c03rig, which combines it
+// with the fast-sync part) calls kernel.Register.
+func Describe() *kernel.Rig {
+	return &kernel.Rig{
 		Property: "C03", Name: "votes", Level: "exploration",
 		Rule: "seeded generation: validator set of 1..12 (thorough 1..20) ed25519 keys from the tape, powers from " +
 			"{ones, equal, small, one dominant at/around exactly 2/3, geometric, near 2^62/n, totals divisible by 3}; a vote multiset " +
@@ -40,7 +43,7 @@ func init() {
 		},
 		QuickRuns: 6000, ThoroughRuns: 300000, QuickBudget: 50 * time.Second, ThoroughBudget: 15 * time.Minute,
 		Run: run,
-	})
+	}
 }
 
 type delivery struct {
